@@ -41,6 +41,19 @@ class C03(Property):
                    'float associativity is not modelled: order independence is exact only in exact arithmetic; float cases use dyadic values '
                    'on which every operation is exact',
                    'dCdt_list needs an indexable `rates`: the generator returned by law_of_mass_action_rates is wrapped in list()')
+    clauses_without_theorem = (
+        'float variables: sums are not associative, order independence and the closed form hold exactly only in exact arithmetic '
+        '(theorems over commutative rings); float cases are restricted to dyadic values where every operation is exact',
+        'symbolic variables: the theorems hold in any commutative ring (polynomial rings included); that sympy expressions behave '
+        'as such a ring is sampled by the oracle (expand(diff) == 0), the generated ODE system is C04',
+        'KeyError for a missing variable: modelled as a guard (missingVars) in front of the pure function, tied by correspondence',
+        'Reaction._init_stoich (sorting of plain dicts) and Reaction.keys() order (a Python set): not modelled, compared as mappings',
+        'results depend only on the current state of the objects (no stale caches after param re-assignment, in-place replacement, '
+        'permutation, sort_substances_inplace): the model is a pure function, the real code is tied by history correspondence / oracle only',
+        'array-valued (batched, mutable) concentrations: per-element equality, unmodified inputs and alias-free results are oracle only',
+        'error agreement of the array path (ValueError for an unknown reactant, IndexError for a short conc/rates): modelled, '
+        'correspondence only',
+    )
     anchors = (('chempy/chemistry.py', 'Reaction.keys'), ('chempy/chemistry.py', 'Reaction.net_stoich'),
                ('chempy/chemistry.py', 'Reaction.all_reac_stoich'), ('chempy/chemistry.py', 'Reaction.active_reac_stoich'),
                ('chempy/chemistry.py', 'Reaction.all_prod_stoich'), ('chempy/chemistry.py', 'Reaction.active_prod_stoich'),
@@ -474,6 +487,31 @@ class C03(Property):
         got2 = {k: kg.to_frac(v) for k, v in prs.rates(vars_, substance_keys=c['keys'], cstr_fr_fc=cstr).items()}
         if got2 != gotf:
             return 'ReactionSystem.rates changes when the reaction list is permuted by %s' % c['perm']
+        if num != 'float':
+            return self._batched(c, rsys, vars_, cstr, gotf)
+        return None
+
+    def _batched(self, c, rsys, vars_, cstr, scalar):
+        """the same evaluation with every variable given as a (mutable) numpy array holding a batch of states: each batch element
+        must equal the scalar evaluation, the inputs must not be modified, distinct entries of the result must not share storage"""
+        import numpy as np
+        f = [1, 2, 3]
+        batch = {k: np.array([kg.to_frac(v) * j for j in f], dtype=object) for k, v in vars_.items()}
+        snap = {k: list(v) for k, v in batch.items()}
+        try:
+            rb = rsys.rates(batch, substance_keys=c['keys'], cstr_fr_fc=cstr)
+        except Exception as e:
+            return 'rates() with array-valued variables raised %s' % exc_name(e)
+        if any(list(batch[k]) != snap[k] for k in batch):
+            return 'rates() modified the arrays it was given'
+        first = {k: (kg.to_frac(v[0]) if hasattr(v, '__len__') else kg.to_frac(v)) for k, v in rb.items()}
+        if first != scalar:
+            k = next(k for k in scalar if first.get(k) != scalar[k])
+            return 'rates() on a batch of states (numpy arrays): d[%s]/dt of the first state is %s, evaluated alone it is %s' % (
+                k, first.get(k), scalar[k])
+        arrs = [v for v in rb.values() if isinstance(v, np.ndarray)]
+        if any(np.shares_memory(a, b) for i, a in enumerate(arrs) for b in arrs[i + 1:]):
+            return 'rates(): two entries of the returned dict share one array (aliasing)'
         return None
 
     def _oracle_array(self, c):
